@@ -168,7 +168,36 @@ func (e *Exec) inStack(fr *Frame, fn *ssa.Function) bool {
 	return n >= 1
 }
 
+var envSocketMethods = map[string]bool{"Send": true, "Inbound": true, "Close": true, "LocalAddr": true, "Addr": true}
+
+func (e *Exec) rootInKnx() bool {
+	f := e.rootFn
+	for f != nil && f.Parent() != nil {
+		f = f.Parent()
+	}
+	return f != nil && f.Pkg != nil && f.Pkg.Pkg.Name() == "knx"
+}
+
 func (e *Exec) callStatic(fr *Frame, st State, fn *ssa.Function, args []Val, binds []Val, pos token.Pos) []Outcome {
+	if e.rootInKnx() && fn.Pkg != nil && fn.Pkg.Pkg.Name() == "knxnet" {
+		name := fn.String()
+		if r := fn.Signature.Recv(); r != nil && envSocketMethods[fn.Name()] && (strings.Contains(name, "TunnelSocket") || strings.Contains(name, "RouterSocket")) {
+			// concrete sockets used by package knx: environment, same ghost log as knxnet.Socket
+			c := e.c
+			st = e.oblige(st, fr.fn, "nopanic.nil", "", pos, c.Ne(args[0][0], c.Const(64, 0)))
+			cc := &ssa.CallCommon{Method: fn.Object().(*types.Func)}
+			if fn.Name() == "Addr" {
+				return []Outcome{{st: st, ret: Val{c.Apply("sock.addr", BV(64), args[0][0])}}}
+			}
+			return e.socketInvoke(fr, st, cc, Val{c.Const(64, e.P.tag(r.Type())), args[0][0]}, args[1:], pos)
+		}
+		switch fn.Name() {
+		case "DialTunnelUDP", "DialTunnelTCP", "ListenRouterOnInterface", "ListenRouter":
+			if r, ok := e.externalEnv(fr, st, fn, args, pos); ok {
+				return r
+			}
+		}
+	}
 	if e.P.isRepoFunc(fn) || fn.Synthetic != "" && len(fn.Blocks) > 0 && e.P.isRepoFunc(fn) {
 		ct := e.P.contracts.lookup(e.P, fn)
 		if ct != nil && ct.Trusted {
@@ -182,7 +211,7 @@ func (e *Exec) callStatic(fr *Frame, st State, fn *ssa.Function, args []Val, bin
 			st = e.useFacts(st, env)
 			return []Outcome{{st: st, ret: r.v}}
 		}
-		if ct != nil && !ct.Inline && !e.forceInline && fn != e.rootFn && ct.usable() &&
+		if ct != nil && !ct.Inline && (!e.forceInline || hasLoopOrSelect(fn)) && fn != e.rootFn && ct.usable() &&
 			(len(ct.Ensures) > 0 || fn.Signature.Results().Len() == 0) {
 			e.viaCt[shortFn(fn.String())] = true
 			return e.applyContract(fr, st, fn, ct, args, pos)
@@ -198,6 +227,13 @@ func (e *Exec) callStatic(fr *Frame, st State, fn *ssa.Function, args []Val, bin
 			e.fail("repo function %s has no body", fn)
 		}
 		e.inlined[shortFn(fn.String())] = true
+		e.stack = append(e.stack, fn)
+		outs := e.execFn(fn, args, binds, st, fr.depth+1, fr)
+		e.stack = e.stack[:len(e.stack)-1]
+		return outs
+	}
+	if (strings.HasPrefix(fn.Synthetic, "wrapper") || strings.HasPrefix(fn.Synthetic, "bound")) && len(fn.Blocks) > 0 && !e.inStack(fr, fn) {
+		// bound-method / promotion wrappers of foreign methods: run the wrapper itself
 		e.stack = append(e.stack, fn)
 		outs := e.execFn(fn, args, binds, st, fr.depth+1, fr)
 		e.stack = e.stack[:len(e.stack)-1]
